@@ -505,3 +505,83 @@ func cmdStress() {
 	}
 	fmt.Fprintln(os.Stderr, "routerx stress: iterations:", iters)
 }
+
+// ---------------------------------------------------------------- free-running overlapping Removes of a present name
+
+type rmStressObs struct {
+	Kind  string `json:"kind"` // "rmstress"
+	N     int    `json:"n"`
+	C     int    `json:"c"`     // the client registered under the name
+	Got   []int  `json:"got"`   // what each Remove returned, sorted (0 = nil)
+	Has   bool   `json:"has"`   // Has afterwards
+	Chg   []chg  `json:"chg"`   // the changes reported, in the order of the reports
+	Count int    `json:"count"` // rounds that looked exactly like this
+}
+
+// cmdRmStress: n goroutines Remove the same present name at once.  Rounds are abstracted (the client is
+// always called 11) and equal outcomes are logged once with their count.
+func cmdRmStress() {
+	out := hx.NewOut(hx.Arg("-out", "obs.ndjson"))
+	defer out.Close()
+	iters := hx.ArgInt("-iters", 100000)
+	rng := hx.Rand(78)
+	seen := map[string]*rmStressObs{}
+	var order []string
+	for it := 0; it < iters; it++ {
+		n := 2 + rng.Intn(5)
+		var mu sync.Mutex
+		var log []router.Change
+		r := router.NewRouter(router.WithOnChange(func(c router.Change) {
+			mu.Lock()
+			log = append(log, c)
+			mu.Unlock()
+		}))
+		cl := &clientObj{id: 11}
+		r.Add("dev/x", cl)
+		log = nil
+		got := make([]int, n)
+		var wg sync.WaitGroup
+		startGun := make(chan struct{})
+		for g := 0; g < n; g++ {
+			wg.Add(1)
+			go func(g int) {
+				defer wg.Done()
+				<-startGun
+				if c := r.Remove("dev/x"); c != nil {
+					if co, ok := c.(*clientObj); ok {
+						got[g] = co.id
+					} else {
+						got[g] = -1
+					}
+				}
+			}(g)
+		}
+		close(startGun)
+		wg.Wait()
+		sort.Ints(got)
+		o := &rmStressObs{Kind: "rmstress", N: n, C: 11, Got: got, Has: r.Has("dev/x"), Chg: []chg{}, Count: 1}
+		idOf := func(c any) int {
+			if c == nil {
+				return 0
+			}
+			if co, ok := c.(*clientObj); ok {
+				return co.id
+			}
+			return -1
+		}
+		for _, c := range log {
+			o.Chg = append(o.Chg, chg{N: c.Name, Old: idOf(c.Old), New: idOf(c.New), Auto: c.Auto})
+		}
+		key := fmt.Sprint(o.N, o.Got, o.Has, o.Chg)
+		if prev, ok := seen[key]; ok {
+			prev.Count++
+		} else {
+			seen[key] = o
+			order = append(order, key)
+		}
+	}
+	for _, k := range order {
+		out.Write(seen[k])
+	}
+	fmt.Fprintln(os.Stderr, "routerx rmstress: rounds:", iters, "distinct outcomes:", len(order))
+}
